@@ -5,6 +5,7 @@ import (
 	"encoding/hex"
 	"errors"
 	"fmt"
+	"math"
 	"os"
 	"strconv"
 	"time"
@@ -247,15 +248,33 @@ func (v *CheckPremiumAmount) Execute(services *SwapServices, swap *SwapData) Eve
 			return swap.HandleError(fmt.Errorf("premium amt too high: %d, limit : %d",
 				swap.SwapInAgreement.Premium, swap.SwapInRequest.PremiumLimit))
 		}
+		if err := checkPremiumLowerBound(swap.SwapInAgreement.Premium, swap.SwapInRequest.Amount); err != nil {
+			return swap.HandleError(err)
+		}
 		return v.next.Execute(services, swap)
 	} else if swap.SwapOutAgreement != nil {
 		if swap.SwapOutAgreement.Premium > swap.SwapOutRequest.PremiumLimit {
 			return swap.HandleError(fmt.Errorf("premium amt too high: %d, limit : %d",
 				swap.SwapOutAgreement.Premium, swap.SwapOutRequest.PremiumLimit))
 		}
+		if err := checkPremiumLowerBound(swap.SwapOutAgreement.Premium, swap.SwapOutRequest.Amount); err != nil {
+			return swap.HandleError(err)
+		}
 		return v.next.Execute(services, swap)
 	}
 	return swap.HandleError(fmt.Errorf("unexpected swap data: %v", swap))
+}
+
+// checkPremiumLowerBound refuses a (negative) premium that takes the whole swap
+// amount or more away. The premium is added to the amount in GetClaimAmount and
+// GetOpeningTXAmount: such a sum is not positive, wraps around as an unsigned
+// number and, multiplied by 1000 for the invoice check, can land on any amount
+// the peer likes.
+func checkPremiumLowerBound(premium int64, amount uint64) error {
+	if amount > math.MaxInt64 || premium <= -int64(amount) {
+		return fmt.Errorf("premium amt too low: %d, amount : %d", premium, amount)
+	}
+	return nil
 }
 
 type CreateAndBroadcastOpeningTransaction struct{}
